@@ -890,6 +890,7 @@ impl Case for LifeCase {
                         o.last_pending = None;
                         o.ready_since = false;
                         let mut bad: Option<String> = None;
+                        let mut interrupted: Option<i64> = None;
                         if line == "ready none" {
                             o.finished = true;
                             if !o.expected.is_empty() {
@@ -903,6 +904,9 @@ impl Case for LifeCase {
                             } else {
                                 i64::MIN
                             };
+                            if got == -(libc::EINTR as i64) || got == -(libc::ECANCELED as i64) {
+                                interrupted = Some(got);
+                            }
                             match o.expected.pop_front() {
                                 Some(e) if e == got => {}
                                 Some(e) => bad = Some(format!("op{i} returned {got}, the kernel's next result for it was {e}")),
@@ -915,6 +919,10 @@ impl Case for LifeCase {
                         let kind = o.kind.clone();
                         if let Some(b) = bad {
                             self.fail("C02", &format!("C02/wrong-result/{kind}"), b);
+                        }
+                        if let Some(v) = interrupted {
+                            // C09 oracle: the caller never observes the interruption itself
+                            self.fail("C09", &format!("C09/interruption-observed/{kind}"), format!("op{i} (not dropped) resolved with errno {}: the interrupted/cancelled attempt was reported to the caller instead of being re-issued", -v));
                         }
                         self.feats.push(format!("kind/{kind}/resolved"));
                         out.push(line);
@@ -1709,7 +1717,12 @@ impl LifeCase {
                 b_frees.extend(frees);
             }
         }
-        sched::finish_all();
+        let stuck = sched::finish_all();
+        if !stuck.is_empty() {
+            for pr in ["C02", "C03", "C06"] {
+                self.fail(pr, &format!("{pr}/race-never-finishes"), "a thread racing a future's poll/drop against the processing of its completion did not return within 100000 scheduling steps".into());
+            }
+        }
         sched::uninstall();
         self.ring = util::lockp(&ring_slot).take();
         let a_result = match sched_result(ta) { Some(r) => r, None => "panic".to_string() };
@@ -1762,9 +1775,12 @@ impl LifeCase {
                     if !o.multi {
                         o.finished = true;
                     }
+                    let kind = o.kind.clone();
                     if exp != Some(got) {
-                        let kind = o.kind.clone();
                         self.fail("C02", &format!("C02/wrong-result/{kind}"), format!("op{i} returned {got} in a race with completion processing, expected {exp:?}"));
+                    }
+                    if got == -(libc::EINTR as i64) || got == -(libc::ECANCELED as i64) {
+                        self.fail("C09", &format!("C09/interruption-observed/{kind}"), format!("op{i} (not dropped) resolved with errno {} in a race with completion processing: the interruption was reported to the caller", -got));
                     }
                 }
             }
